@@ -651,7 +651,7 @@ pub fn run(tier: Tier) -> Report {
                     let opsref: Vec<&Op> = h2.iter().map(|i| &ops[*i]).collect();
                     tr += 1;
                     match h.run(&opsref, false) {
-                        Err(e) => report(&rep, data, *avail, &opsref, &e),
+                        Err(e) => report(&rep, data, *avail, &opsref, &e, &h2, tier.thorough()),
                         Ok((k, mpos, ident)) => {
                             if !ident {
                                 ident_bad += 1;
@@ -663,7 +663,7 @@ pub fn run(tier: Tier) -> Report {
                                 // new state: drain probe pins "each bit exactly once, in order"
                                 tr += 1;
                                 if let Err(e) = h.run(&opsref, true) {
-                                    report(&rep, data, *avail, &opsref, &e);
+                                    report(&rep, data, *avail, &opsref, &e, &h2, tier.thorough());
                                 }
                                 queue.push_back(h2);
                             }
@@ -696,7 +696,7 @@ pub fn run(tier: Tier) -> Report {
     rep
 }
 
-fn report(rep: &Report, data: &[u8], avail: usize, ops: &[&Op], e: &str) {
+fn report(rep: &Report, data: &[u8], avail: usize, ops: &[&Op], e: &str, idx: &[usize], thorough: bool) {
     let last = ops.last().map(|o| format!("{o:?}")).unwrap_or_default();
     let class = if e.contains("panic") {
         panic_sig(e.split("panic ").nth(1).unwrap_or(e))
@@ -710,7 +710,7 @@ fn report(rep: &Report, data: &[u8], avail: usize, ops: &[&Op], e: &str) {
     rep.violation(
         &class,
         format!("source {} (first {avail} byte(s) available): after {:?}: {e}", hex(data), ops),
-        json!({"kind": "reader", "source": hex(data), "initially_available": avail, "history": ops.iter().map(|o| format!("{o:?}")).collect::<Vec<_>>(), "error": e}),
+        json!({"kind": "reader", "source": hex(data), "initially_available": avail, "history": ops.iter().map(|o| format!("{o:?}")).collect::<Vec<_>>(), "op_indices": idx, "thorough_alphabet": thorough, "error": e}),
     );
 }
 
@@ -772,4 +772,31 @@ fn one_step_sweep(rep: &Report, tier: Tier) {
     rep.add_transitions(n);
     rep.add_states(65536 * offsets.len() as u64);
     rep.extra("one_step_sweep_operations", json!(n));
+}
+
+pub fn replay(case: &serde_json::Value) {
+    let data = crate::bits::unhex(case["source"].as_str().unwrap_or(""));
+    let avail = case["initially_available"].as_u64().map(|v| v as usize).unwrap_or(data.len());
+    let Some(idx) = case["op_indices"].as_array() else {
+        println!("one-step case: source {} history {}", case["source"], case["history"]);
+        return;
+    };
+    let tier = if case["thorough_alphabet"].as_bool().unwrap_or(false) { Tier::Thorough } else { Tier::Quick };
+    let ops = build_ops(tier);
+    let bits = bits_of(&data);
+    let h = Harness { data: &data, bits: &bits, initial_avail: avail, tabs: tables() };
+    let hist: Vec<&Op> = idx.iter().map(|i| &ops[i.as_u64().unwrap() as usize]).collect();
+    for n in 1..=hist.len() {
+        match h.run(&hist[..n], false) {
+            Ok((k, pos, _)) => println!("after {:?}: reader state (pulled, buffered, bit offset, grown) = {k:?}, model position {pos}", hist[n - 1]),
+            Err(e) => {
+                println!("step {}: {e}", n - 1);
+                return;
+            }
+        }
+    }
+    match h.run(&hist, true) {
+        Ok(_) => println!("drain probe: the remaining bits come out exactly once, in order"),
+        Err(e) => println!("drain probe: {e}"),
+    }
 }
